@@ -147,6 +147,21 @@ fn parse(transcript: &[String], slots: &[Slot]) -> Result<(usize, bool), String>
     Ok((filled, true))
 }
 
+/// Slots of a script given as text (structural replay): by first token, up to the first quit.
+fn slots_of_text(lines: &[String]) -> Vec<Slot> {
+    let mut v = Vec::new();
+    for l in lines {
+        match l.split_whitespace().next() {
+            Some("quit") => break,
+            Some("uci") => v.push(Slot::Uci),
+            Some("isready") => v.push(Slot::ReadyOk),
+            Some("go") => v.push(Slot::Go),
+            _ => {}
+        }
+    }
+    v
+}
+
 fn check(bytes: &[u8], stats: &mut Stats) -> Verdict {
     let mut s = Src::new(bytes);
     let sc = gen_script(&mut s);
@@ -156,6 +171,16 @@ fn check(bytes: &[u8], stats: &mut Stats) -> Verdict {
         text_lines.push("quit".into());
         text_lines.extend(sc.after_quit.iter().cloned());
     }
+    if slots != slots_of_text(&text_lines) {
+        return Err(Failure::new("harness-slot-derivation-mismatch", json!({"script": text_lines})));
+    }
+    judge(&sc, &text_lines, stats)
+}
+
+/// The oracle for one script.
+fn judge(sc: &Script, text_lines: &[String], stats: &mut Stats) -> Verdict {
+    let text_lines: Vec<String> = text_lines.to_vec();
+    let slots = slots_of_text(&text_lines);
     let mut payload = text_lines.join("\n");
     if sc.final_newline || text_lines.is_empty() {
         if !text_lines.is_empty() {
@@ -288,6 +313,18 @@ pub fn run(tier: Tier, seed: u64, known: &Known) -> PropRun {
     run
 }
 
-pub fn replay(_part: &str, bytes: &[u8], _case: &Value, stats: &mut Stats) -> Verdict {
+pub fn replay(_part: &str, bytes: &[u8], case: &Value, stats: &mut Stats) -> Verdict {
+    // structural replay: the saved script text
+    let c = case.get("case").unwrap_or(case);
+    if let Some(a) = c.get("script").and_then(|x| x.as_array()) {
+        let text: Vec<String> = a.iter().filter_map(|x| x.as_str().map(|s| s.to_string())).collect();
+        let ends_with_quit = c.get("ends_with_quit").and_then(|x| x.as_bool()).unwrap_or_else(|| text.iter().any(|l| l.trim() == "quit"));
+        let final_newline = c.get("final_newline").and_then(|x| x.as_bool()).unwrap_or(true);
+        let close_early = c.get("stdin_closed_before_answers").and_then(|x| x.as_bool()).unwrap_or(!final_newline);
+        // line kinds are only needed for the statistics; the oracle works on the text
+        let lines: Vec<Line> = text.iter().map(|t| Line::Unknown(t.clone())).collect();
+        let sc = Script { lines, after_quit: Vec::new(), ends_with_quit, final_newline, close_early: close_early || !final_newline };
+        return judge(&sc, &text, stats);
+    }
     check(bytes, stats)
 }
